@@ -6,7 +6,7 @@
 set -u
 P="$1"; X="$2"
 WT="/tmp/mut/$P"; OUT="/tmp/mut/$P-out"
-export CARGO_TARGET_DIR=/tmp/mut/target CARGO_NET_OFFLINE=true
+export CARGO_TARGET_DIR="${MUT_TARGET:-/tmp/mut/target}" CARGO_NET_OFFLINE=true   # MUT_TARGET=<dir>: another build slot
 cd "$WT" || exit 2
 git checkout -q -- . && git clean -qfd
 R="$OUT/$X.confirm"; : > "$R"
